@@ -30,13 +30,13 @@ LEVEL_NOTE = ('trusted: the reference producer (validated byte-for-byte against 
               'produce(dissect(file)) == file) and the layout notes in ReadBIT.py that it was written from; files with '
               'zero channels, damaged markers, duplicate channel names or a channel called "X   " are outside the statement')
 BOUNDS = {
-    'quick': 'layout: 1 pass x channels {1,2,3,20} x frames 1..5 x frames/block {1,2,3} x (start,stop,spacing) in '
+    'quick': 'layout: 1 pass x channels {1,2,3,20} x frames 0..5 x frames/block {1,2,3} x (start,stop,spacing) in '
              '{100,97,0.5,0.25}^3 (3840 files); 2 passes x (channels,frames,frames/block)^2 x 4 start/stop/spacing pairs '
              '(14400 files); values position coded, exactly representable.  cover: every 32 bit word hi16 x lo16 with one '
              'half ranging over all 2^16 and the other over {0,1,0x7FFF,0x8000,0xFFFF,0x5555} (786k words) as frame data in '
              'files of 6 layouts.  big blocks: channels {1,10,20} x frames {16,17,33,40} x frames/block {8,16,17,32} x 2 '
              'directions (both tiers); 27 three-pass and 81 four-pass files.  The repository example file (2 passes, 1472+1440 frames x 10 channels)',
-    'thorough': 'layout: 1 pass x channels {1,2,3,4,19,20} x frames 1..7 x frames/block {1,2,3,4} x '
+    'thorough': 'layout: 1 pass x channels {1,2,3,4,19,20} x frames 0..7 x frames/block {1,2,3,4} x '
                 '{100,97,0.5,0.25,1000.125}^3; 2 passes x (6 x 7 x 4)^2 x 4 pairs; 27 three-pass, 81 four-pass and 32 five-pass files; cover with %d '
                 'boundary patterns for the fixed half (all single bits, low and high masks; %.1fM words); example file',
 }
@@ -71,9 +71,9 @@ COVER_RANGE = 512
 
 def _tier(tier):
     if tier == 'quick':
-        return {'channels': [1, 2, 3, 20], 'frames': [1, 2, 3, 4, 5], 'fpb': [1, 2, 3],
+        return {'channels': [1, 2, 3, 20], 'frames': [0, 1, 2, 3, 4, 5], 'fpb': [1, 2, 3],
                 'xvals': [100, 97, 0.5, 0.25], 'fixed': COVER_FIXED_Q, 'three': True}
-    return {'channels': [1, 2, 3, 4, 19, 20], 'frames': [1, 2, 3, 4, 5, 6, 7], 'fpb': [1, 2, 3, 4],
+    return {'channels': [1, 2, 3, 4, 19, 20], 'frames': [0, 1, 2, 3, 4, 5, 6, 7], 'fpb': [1, 2, 3, 4],
             'xvals': [100, 97, 0.5, 0.25, 1000.125], 'fixed': COVER_FIXED_T, 'three': True}
 
 
